@@ -51,6 +51,11 @@ pub fn run(ctx: &mut Ctx) {
             c.push(pre.new_line("E"));
             for _ in 0..pk { c.push(format!("E add {}", to_hex(&ctx.rng.bytes(4)))); }
             c.push("E encode".into());
+            if ctx.rng.chance(1, 2) {
+                // a rejected attempt first (odd / zero shard size), then the corrected retry
+                c.push(format!("E reset {} {} {}", k, r, *ctx.rng.pick(&[0usize, 1, 3, 65])));
+                ctx.count("history", "rejected-reset-then-retry");
+            }
             c.push(format!("E reset {} {} {}", k, r, sb));
         } else {
             c.push(Cfg { kind: "default".into(), engine: engine.clone(), k, r, sb }.new_line("E"));
@@ -94,6 +99,9 @@ pub fn run(ctx: &mut Ctx) {
         if crossing {
             let (pk, pr) = if *high { (2usize, 5usize) } else { (5usize, 2usize) };
             d.push(format!("D new default {} {} {} 4", engine, pk, pr));
+            if ctx.rng.chance(1, 2) {
+                d.push(format!("D reset {} {} {}", k, r, *ctx.rng.pick(&[0usize, 1, 3, 65])));
+            }
             d.push(format!("D reset {} {} {}", k, r, sb));
         } else {
             d.push(format!("D new {} {} {} {} {}", if ctx.rng.chance(1, 2) { "default" } else { "rs" }, engine, k, r, sb));
